@@ -104,8 +104,23 @@ class Engine:
                 return int(cv)
         return None
 
-    def char_class_of(self, e, st):
+    def char_class_of(self, e, st, depth=0):
         """abstract class of a char-valued expression"""
+        e1 = self.tu.strip(e, casts=True)
+        if e1 is not None and e1.get('kind') == 'ConditionalOperator' and depth < 4:
+            cnd, a, b = self.tu.kids(e1)[:3]
+            v = self.ev(cnd, st)
+            ca = self.char_class_of(a, st, depth + 1)
+            cb = self.char_class_of(b, st, depth + 1)
+            if v is True:
+                return ca
+            if v is False:
+                return cb
+            if ca == cb:
+                return ca
+            if {ca, cb} <= {'NZ', 'NS'}:
+                return 'NZ'
+            return '?'
         c = self.const_of(e)
         if c is not None:
             c &= 0xff
@@ -769,72 +784,100 @@ def check_readxml(ctx, tu):
         ctx.broken('R-C16-3: rkcommon::xml::readXML not found')
         return
     f = fs[0]
-    g = tu.cfg(f)
-    body = tu.body(f)
-    # --- buffer construction: std::vector<char> mem(N + 1, 0)
-    bufvar = None
-    sizevar = None
-    problems = []
-    for n in tu.walk(body):
-        if n.get('kind') == 'VarDecl' and 'vector<char' in n.get('type', {}).get('qualType', '').replace(' ', '').replace('std::', ''):
-            ks = tu.kids(n)
-            ce = tu.strip(ks[-1]) if ks else None
-            if ce is not None and ce.get('kind') == 'CXXConstructExpr':
-                args = [a for a in tu.kids(ce) if a.get('kind') != 'CXXDefaultArgExpr']
-                if len(args) >= 2:
-                    a0 = tu.strip(args[0], casts=True)
-                    if a0.get('kind') == 'BinaryOperator' and a0.get('opcode') == '+':
-                        l, r = tu.kids(a0)
-                        for x, y in ((l, r), (r, l)):
-                            v, nm = Engine.decl_of(Engine(tu, ctx), x)
-                            c = tu.sd(tu.strip(y, casts=True)).get('cv')
-                            if v is not None and c is not None and int(c) >= 1:
-                                fill = tu.sd(tu.strip(args[1], casts=True)).get('cv')
-                                if fill == '0':
-                                    bufvar, sizevar = n, v
+    eng0 = Engine(tu, ctx)
     inst = 'xml::readXML'
+
+    def find_buffer(fn):
+        """(VarDecl node, size var id) of a std::vector<char> V(N + k, 0) with k >= 1 declared in fn"""
+        for n in tu.walk(tu.body(fn)):
+            if n.get('kind') == 'VarDecl' and 'vector<char' in n.get('type', {}).get('qualType', '').replace(' ', '').replace('std::', ''):
+                ks = tu.kids(n)
+                ce = tu.strip(ks[-1]) if ks else None
+                if ce is not None and ce.get('kind') == 'CXXConstructExpr':
+                    args = [a for a in tu.kids(ce) if a.get('kind') != 'CXXDefaultArgExpr']
+                    if len(args) >= 2:
+                        a0 = tu.strip(args[0], casts=True)
+                        if a0.get('kind') == 'BinaryOperator' and a0.get('opcode') == '+':
+                            l, r = tu.kids(a0)
+                            for x, y in ((l, r), (r, l)):
+                                v, nm = eng0.decl_of(x)
+                                c = tu.sd(tu.strip(y, casts=True)).get('cv')
+                                if v is not None and c is not None and int(c) >= 1 and tu.sd(tu.strip(args[1], casts=True)).get('cv') == '0':
+                                    return n, v
+        return None, None
+
+    def data_of(e):
+        """decl id of the vector whose .data() / &v[0] the expression is"""
+        e = tu.strip(e, casts=True)
+        if e is not None and e.get('kind') == 'CXXMemberCallExpr' and tu.sd(e).get('q', '').endswith('::data'):
+            s_, obj, _ = tu.call_parts(e)
+            v, nm = eng0.decl_of(obj)
+            return v
+        return None
+
+    # the function that builds the buffer: readXML itself or a helper it calls whose result initialises the parsed vector
+    builder, bufvar, sizevar = None, None, None
+    parsed_vec = None
+    for cand in [f] + [x for x in reachable_fns(tu, f) if x['id'] != f['id'] and tu.fn_file(x) == XML_FILE]:
+        bv, sv = find_buffer(cand)
+        if bv is not None:
+            builder, bufvar, sizevar = cand, bv, sv
+            break
     if bufvar is None:
         ctx.violation(R3, inst, 'the file buffer is not a std::vector<char> of (numBytes + k, k >= 1) zero-initialised bytes: '
                       'the parser relies on a terminating NUL', tu.fn_loc(f), key='%s|%s|readXML|buffer-not-nul-terminated' % (R3, XML_FILE))
         return
-    ctx.ok(R3, inst + ': buffer', 'std::vector<char> %s(%s + 1, 0)' % (bufvar.get('name'), tu.show(tu.node(sizevar)) if tu.node(sizevar) else 'numBytes'),
+    if builder['id'] == f['id']:
+        parsed_vec = bufvar['id']
+    else:
+        # the helper must return that very vector, and readXML must initialise its vector from the helper's result
+        rets = [n for n in tu.walk(tu.body(builder)) if n.get('kind') == 'ReturnStmt']
+        def returns_buf(r):
+            ks = tu.kids(r)
+            if not ks:
+                return False
+            refs = [x for x in tu.walk(ks[0]) if x.get('kind') == 'DeclRefExpr' and x.get('referencedDecl', {}).get('kind') == 'VarDecl']
+            return len(refs) == 1 and refs[0]['referencedDecl'].get('id') == bufvar['id']
+        if not rets or not all(returns_buf(r) for r in rets):
+            ctx.undecided(R3, inst, 'the helper %s builds a NUL-terminated buffer but does not simply return it' % builder['q'], tu.fn_loc(builder))
+            return
+        for n in tu.walk(tu.body(f)):
+            if n.get('kind') == 'VarDecl' and tu.kids(n):
+                for x in tu.walk(tu.kids(n)[-1]):
+                    if x.get('kind') == 'CallExpr' and (tu.callee_fn(x) or {}).get('id') == builder['id']:
+                        parsed_vec = n['id']
+        if parsed_vec is None:
+            ctx.undecided(R3, inst, 'cannot connect the buffer built by %s with the vector handed to parseXML' % builder['q'], tu.fn_loc(f))
+            return
+    ctx.ok(R3, inst + ': buffer', 'std::vector<char> %s(numBytes + 1, 0) built in %s' % (bufvar.get('name'), builder['q'].replace('rkcommon::', '')),
            tu.loc(bufvar))
-    # --- fread bound and parser entry
-    def is_buf_data(e):
-        e = tu.strip(e, casts=True)
-        if e is not None and e.get('kind') == 'CXXMemberCallExpr' and tu.sd(e).get('q', '').endswith('::data'):
-            s_, obj, _ = tu.call_parts(e)
-            v, nm = Engine.decl_of(Engine(tu, ctx), obj)
-            return v == bufvar['id']
-        if e is not None and e.get('kind') == 'UnaryOperator' and e.get('opcode') == '&':
-            return False
-        return False
     nread = nparse = 0
-    for b, i, n in g.stmts():
-        if n.get('kind') != 'CallExpr':
-            continue
-        q = tu.sd(n).get('q', '')
-        args = tu.call_parts(n)[2]
-        if q in ('fread', 'fread_unlocked') and len(args) == 4 and is_buf_data(args[0]):
-            nread += 1
-            vs = []
-            for a in (args[1], args[2]):
-                v, nm = Engine.decl_of(Engine(tu, ctx), a)
-                c = tu.sd(tu.strip(a, casts=True)).get('cv')
-                vs.append((v, c))
-            okb = ((vs[0][1] == '1' and vs[1][0] == sizevar) or (vs[1][1] == '1' and vs[0][0] == sizevar))
-            if okb:
-                ctx.ok(R3, inst + ': fread', 'at most numBytes bytes are read into the numBytes+1 buffer', tu.loc(n))
-            else:
-                ctx.violation(R3, inst + ': fread', 'fread may store more than numBytes bytes into the buffer (size*count is not 1*numBytes): '
-                              'the terminating NUL can be overwritten', tu.loc(n), key='%s|%s|readXML|fread-bound' % (R3, XML_FILE))
-        if q == 'rkcommon::xml::parseXML':
-            nparse += 1
-            if len(args) == 2 and is_buf_data(args[1]):
-                ctx.ok(R3, inst + ': parse', 'parser entered at the start of the NUL-terminated buffer', tu.loc(n))
-            else:
-                ctx.violation(R3, inst + ': parse', 'parseXML is not entered on the NUL-terminated buffer built by readXML',
-                              tu.loc(n), key='%s|%s|readXML|parse-arg' % (R3, XML_FILE))
+    for fn in (builder, f) if builder['id'] != f['id'] else (f,):
+        for b, i, n in tu.cfg(fn).stmts():
+            if n.get('kind') != 'CallExpr':
+                continue
+            q = tu.sd(n).get('q', '')
+            args = tu.call_parts(n)[2]
+            if q in ('fread', 'fread_unlocked') and len(args) == 4 and data_of(args[0]) == bufvar['id']:
+                nread += 1
+                vs = []
+                for a in (args[1], args[2]):
+                    v, nm = eng0.decl_of(a)
+                    c = tu.sd(tu.strip(a, casts=True)).get('cv')
+                    vs.append((v, c))
+                okb = ((vs[0][1] == '1' and vs[1][0] == sizevar) or (vs[1][1] == '1' and vs[0][0] == sizevar))
+                if okb:
+                    ctx.ok(R3, inst + ': fread', 'at most numBytes bytes are read into the numBytes+1 buffer', tu.loc(n))
+                else:
+                    ctx.violation(R3, inst + ': fread', 'fread may store more than numBytes bytes into the buffer (size*count is not 1*numBytes): '
+                                  'the terminating NUL can be overwritten', tu.loc(n), key='%s|%s|readXML|fread-bound' % (R3, XML_FILE))
+            if q == 'rkcommon::xml::parseXML':
+                nparse += 1
+                if len(args) == 2 and data_of(args[1]) == parsed_vec:
+                    ctx.ok(R3, inst + ': parse', 'parser entered at the start of the NUL-terminated buffer', tu.loc(n))
+                else:
+                    ctx.violation(R3, inst + ': parse', 'parseXML is not entered on the NUL-terminated buffer built by readXML',
+                                  tu.loc(n), key='%s|%s|readXML|parse-arg' % (R3, XML_FILE))
     if nread != 1 or nparse != 1:
         ctx.undecided(R3, inst, 'expected exactly one fread into the buffer and one parseXML call (found %d / %d)' % (nread, nparse), tu.fn_loc(f))
     # --- every throw reachable from readXML is std::runtime_error
